@@ -9,7 +9,9 @@
 //
 // The world has text fields whose key is also an attribute name or a URN scheme (so that conditions on
 // both meet in one AND/OR, part D) and the contacts include typed fields whose stored value has no
-// typed part (parts A, B, C); part F reaches the evaluator through Contact.ReevaluateQueryBasedGroups.
+// typed part (parts A, B, C); part F reaches the evaluator through Contact.ReevaluateQueryBasedGroups;
+// part G (multi.go) is about properties with several values (URNs of one scheme, the urn attribute):
+// every order of the values, != against =, any/all of the per-value verdicts.
 package c15
 
 import (
@@ -695,6 +697,7 @@ func allGroups(tier string) []group {
 	gs = append(gs, partC(tier)...)
 	gs = append(gs, partD(tier)...)
 	gs = append(gs, partF(tier)...)
+	gs = append(gs, partG(tier)...)
 	return gs
 }
 
@@ -956,14 +959,37 @@ func guards(r *mc.Result, tier string) []string {
 	for _, f := range []string{"member=true", "member=false", "stored-value-without-typed-part", "existence-only-group"} {
 		need("regroup:" + f)
 	}
+	// part G: several values of one property, met by every operator with verdicts that disagree, the
+	// deciding value first and not first; every clause exercised in both directions
+	for _, cls := range []string{"urn", "attr.urn"} {
+		for _, n := range []string{"none", "one", "several"} {
+			need("multi:" + cls + ":values=" + n)
+		}
+		for _, op := range []string{"=", "!=", "~"} {
+			for _, b := range []string{"true", "false"} {
+				need("multi:" + cls + ":op=" + op + ":values=several:result=" + b)
+				need("multi:" + cls + ":op=" + op + ":values-disagree:first-value-holds=" + b)
+			}
+		}
+	}
+	need("multi:attr.urn:values-of-several-schemes")
+	need("multi:more-than-one-order")
+	need("multi:existence:values=none")
+	need("multi:existence:values=several")
+	for _, f := range []string{"eq-and-ne:false", "eq-or-ne:true"} {
+		need("multi:" + f)
+	}
 	need("bool:result:true")
 	need("bool:result:false")
 	need("simplify:changed-structure")
 	need("simplify:kept-structure")
-	for _, k := range []string{"cond", "number", "date", "bool", "simplify", "regroup"} {
+	for _, k := range []string{"cond", "number", "date", "bool", "simplify", "regroup", "multi"} {
 		if r.Counters["admitted:"+k] == 0 {
 			f = append(f, "no admitted case of kind "+k)
 		}
+	}
+	if r.Counters["rejected_by_validator:multi"] == 0 {
+		f = append(f, "the validator never rejected a condition on a multi-valued property (redacted URNs)")
 	}
 	if r.Counters["rejected_by_validator:cond"] == 0 {
 		f = append(f, "the validator never rejected a condition (the admitted set is not decided by the real validator)")
@@ -986,11 +1012,13 @@ func init() {
 			"(D) 2 atom sets x 16 contacts realising every truth assignment x every AND/OR tree of depth <= 2 (root arity 2: 36^2, arity 3: 16^3 children) in 3 spellings, result must be the conjunction/disjunction of the operands' own results; every constructed tree of depth <= 3 incl. single-child and same-operator nesting: Simplify() must keep the meaning, and the parsed (simplified) text must evaluate to it. " +
 			"Plus 2 atom sets of SAME-KEYED conditions (attribute language and field language, URN scheme twitter and field twitter: '= value'; attribute name and field name '!= \"\"', scheme twitter and field twitter '= \"\"': each pair differs in the property type only and the 16 contacts give the four atoms independent truth values) x 16 contacts x every tree with a binary root (36^2 per operator, so that both conditions of a pair are direct operands of one AND/OR, operands of one only after flattening of nested groups, or in different groups - guards demand each) in the 3 spellings plus a 4th in which URN conditions are written bare (twitter = bob; the field keeps fields. as the bare key names the attribute/scheme), and every constructed tree of depth <= 2 for Simplify(). The thorough tier gives these sets the full tree families, adds a set with an attribute and a field of the same key but different value types (tickets: number / text) and the != operator, and writes the atoms of every set bare as well. " +
 			"(F) Contact.ReevaluateQueryBasedGroups (6 query based groups over typed and same-keyed fields) on the 26 contacts x 7 environments of (A): no panic, for an active contact membership = the group's query evaluated on the contact, and for the groups made of empty-valued conditions = absence/presence per the contact model combined by AND/OR. " +
+			"(G) MULTI-VALUED properties: 3 environments (one redacting URNs) x 8 properties as written (the urn attribute, tel / twitter bare and urns.-prefixed, ext, whatsapp, a scheme without URNs) x 14 query values (none, every path of the URN alphabet, parts of paths shared by several / one URN / too short for ~, another letter case, values no URN has) x every SET of <= 3 (thorough: 4) of 7 URNs (3 tel, 2 twitter, ext:ann whose path is twitter:ann's, whatsapp whose path is part of a tel path) - each set evaluated with its URNs in EVERY order (up to 6, thorough 24) and with each URN alone, under all 7 operators (the real validator admits =, !=, ~): no panic; no result depends on the order of the values; for a present property != is the negation of =; = and ~ hold iff they hold for any of the values and != iff for all of them (a value's own verdict = the real evaluator's answer for the contact with that URN alone); empty-valued =/!= agree with presence in the contact model; 'P = v AND P != v' and 'P = v OR P != v' are the conjunction/disjunction of their operands' results. Guards demand, per operator and for both the scheme and the urn attribute, several values whose verdicts disagree with the first value on either side. " +
 			"distinct_nontrivial counts cases whose query the validator admitted (each case is a distinct tuple by construction).",
 		Assumptions: []string{
 			"bounded alphabets of literals, contacts, zones and days as listed in the rule; the parse and evaluate environments are the same",
 			"absence/presence is not demanded for attributes a contact does not expose to queries (id, group, flow, history, status) nor where the validator forbids set-checks",
 			"a number, datetime or location field is present for queries iff its stored value has the typed part of the field's type (Contact.QueryProperty supplies typed values; 'for a present value exactly one of <, =, > holds' cannot be met by a text): a stored value with the text alone, or with typed parts of other types only, counts as absent",
+			"multi-valued properties (several URNs of a scheme, the urn attribute): 'logically consistent' is taken as: the values are a set (their order is immaterial), != negates = whenever the property is present, and =, ~ / != are the any / all of the per-value verdicts (the any/all mechanism the property names); how one text value is compared with the query value is not modelled - each value's verdict is the real evaluator's on the contact holding that value alone",
 			"numeric order itself is not part of the statement: only the stated mutual consistency of the operators is demanded for numbers",
 			"queries can only be evaluated after ParseQuery (ContactQuery has no constructor), so 'simplification never changes the result' is checked structurally on Simplify() over the operands' results and end-to-end on the parsed text",
 		},
